@@ -5,6 +5,7 @@ run).  Control flow that depends on symbolic values goes through the Explorer (f
 re-execution).  Library calls are modelled in `methods.py`/here; anything not modelled raises
 InternalError, which makes the check inconclusive (never a pass, never an alarm).
 """
+import re
 import z3
 
 from .values import (Adt, Struct, TupleV, VecV, Big, ISz, Char, CellV, Ref, Closure, PyFn, Str, Union,
@@ -1012,6 +1013,8 @@ class Interp:
         b = self.builtin_calls.get(key)
         if b is not None:
             return PyFn(lambda *a: b(self, list(a), e, mod), key)
+        if key == "SHOULD_COLORIZE":
+            return Opaque("SHOULD_COLORIZE")
         raise InternalError("unresolved path %s at %s:%s" % (key, mod.name, e.get("l")))
 
     def raw_lookup(self, name, env):
@@ -1403,7 +1406,20 @@ class Interp:
             return VecV([self.eval(x, env, mod) for x in e["args"]])
         if name == "format":
             args = [self.eval(x, env, mod) for x in e["args"]]
-            return self.format(args)
+            r = self.format(args)
+            fmt = args[0] if args else None
+            if isinstance(fmt, str) and r.s is None:
+                # inline captures: {name}, {name:>width$}
+                caps = {}
+                for m in re.finditer(r"\{([A-Za-z_][A-Za-z0-9_]*)(?::[^}]*?([A-Za-z_][A-Za-z0-9_]*)\$)?[^}]*\}", fmt):
+                    for nm in m.groups():
+                        if nm and nm not in caps:
+                            sc = env.lookup(nm)
+                            if sc is not None:
+                                caps[nm] = self.deref(sc.vars[nm])
+                if caps:
+                    r.captures = caps
+            return r
         if name == "panic":
             args = [self.eval(x, env, mod) for x in e["args"]]
             fmt = args[0] if args else ""
